@@ -193,14 +193,14 @@ def gen_inputs(tier, rng):
     # identifier-like text
     for k in range(40 if thorough else 12):
         vs = [20, 200, 2000][k % 3]
-        n = rng.choice([1000, 2500, 5000] if not thorough else [2000, 8000, 30000])
+        n = rng.choice([1000, 2500, 4000] if not thorough else [2000, 8000, 30000])
         add("words", words_text(rng, vs, n))
     # real source text (what string tables mostly contain)
     for s in source_slices(rng, 24 if thorough else 6, 3000):
         add("source", s)
     add("source", source_slices(rng, 1, 40000 if thorough else 20000)[0])
     # incompressible data
-    for n in ([10, 100, 1000, 5000] if not thorough else [10, 100, 1000, 5000, 20000, 40000]):
+    for n in ([10, 100, 1000, 2500] if not thorough else [10, 100, 1000, 5000, 20000, 40000]):
         add("rand256", _rb(rng, n))
     if thorough:
         add("words", words_text(rng, 300, 102400))
